@@ -161,6 +161,16 @@ Theorem C10_strategy_independent_of_listing : forall (X : Type) (generate : stri
 Proof. intros X. exact (@strategy_independent_of_listing X). Qed.
 Print Assumptions C10_strategy_independent_of_listing.
 
+(* the graphqlschema strategy: no order-sensitive site in its generator package or in the schema loader
+   (what it iterates are graphql-core's insertion-ordered maps; the only sets are tested for membership) *)
+Example C10_schema_strategy_sites_order_free :
+  forallb (fun s => negb (order_sensitive (s_sink s)))
+    (filter (fun s => String.prefix "graphql_schema_generators/" (s_file s) || String.eqb (s_file s) "schema.py"
+                      || String.eqb (s_file s) "settings.py" || String.eqb (s_file s) "config.py")
+            site_table) = true /\
+  List.length (filter (fun s => String.prefix "graphql_schema_generators/" (s_file s)) site_table) = 1.
+Proof. vm_compute. split; reflexivity. Qed.
+
 (* ---- regeneration ---- *)
 Theorem C10_regenerate_idempotent : forall p fs,
   NoDup (map fst p) -> write_all p (write_all p fs) = write_all p fs.
